@@ -8,6 +8,8 @@
 //!  R-nak   real receiver misses data, puppet answers k NAK rounds with one segment each shortly
 //!          before the next round, then falls silent                    -> NakLimitReached
 //!  R-inact real receiver gets metadata and some data, then (after k late segments) silence -> InactivityDetected
+//!  S-ack-susp / R-ack-susp  as S-ack / R-ack, and the user suspends the waiting transaction after j periods + a fraction
+//!          and resumes it 0.4 .. 5.1 periods later: suspended time must not count, every expiry still retransmits
 //!  R-cksum / R-size  puppet sends a wrong checksum / data beyond the EOF size -> FileChecksumFailure / FilesizeError
 //! over a grid of timeouts {1,2,3} s, limits {1..4} and handlers {absent, cancel, ignore, suspend, abandon}.
 //! Oracle (timestamp arithmetic on the trace): the first limit fault comes L * T after the event that
@@ -57,7 +59,7 @@ pub fn check_limits(case: &C17Case, tr: &Trace) -> Result<Vec<&'static str>, Fai
     let eps = 3 * tau + 6;
     let mut labels = vec![];
     let (expected_cond, period_ms) = match case.family.as_str() {
-        "S-ack" | "R-ack" => (Condition::PositiveLimitReached, cfg.ta as u64 * 1000),
+        "S-ack" | "R-ack" | "S-ack-susp" | "R-ack-susp" => (Condition::PositiveLimitReached, cfg.ta as u64 * 1000),
         "S-inact" | "R-inact" => (Condition::InactivityDetected, cfg.ti as u64 * 1000),
         "R-nak" => (Condition::NakLimitReached, cfg.tn as u64 * 1000),
         "R-cksum" => (Condition::FileChecksumFailure, 0),
@@ -108,6 +110,56 @@ pub fn check_limits(case: &C17Case, tr: &Trace) -> Result<Vec<&'static str>, Fai
             }
             if t_fault > want + eps {
                 return Err(fail(tr, &format!("fault-too-late:{}", case.family), format!("first {k:?} at {} ms, timeout {period_ms} ms x limit {l}: fault only at {t_fault} ms", tx[0])));
+            }
+        }
+        "S-ack-susp" | "R-ack-susp" => {
+            // the user suspends the transaction while it waits for the acknowledgement and resumes it later: the time spent
+            // suspended must not count. With u(a,b) = un-suspended time between a and b: the fault comes no earlier than
+            // u = L x T after the first transmission, every expiry before it retransmitted (consecutive transmissions, and the
+            // last one and the fault, are T..2T of un-suspended time apart: a resume starts a fresh period), at least L transmissions.
+            let k = if real == 0 { Kind::Eof } else { Kind::Finished };
+            let tx: Vec<u64> = times_of(k).into_iter().filter(|t| *t <= t_fault).collect();
+            let t_s = tr.cmds.iter().find(|c| c.1 == real && c.2.starts_with("Suspend")).map(|c| c.0);
+            let t_r = tr.cmds.iter().find(|c| c.1 == real && c.2.starts_with("Resume")).map(|c| c.0);
+            let (Some(t_s), Some(t_r)) = (t_s, t_r) else {
+                return Err(fail(tr, "harness:no-suspend", "the suspend/resume script did not run".into()));
+            };
+            let unsusp = |a: u64, b: u64| -> u64 {
+                let ov = b.min(t_r).saturating_sub(a.max(t_s));
+                (b - a) - ov.min(b - a)
+            };
+            if tx.is_empty() {
+                return Err(fail(tr, &format!("retransmissions-before-fault:{}", case.family), format!("no {k:?} PDU before the fault")));
+            }
+            if t_s < t_fault {
+                labels.push("suspended-before-fault");
+            }
+            let u = unsusp(tx[0], t_fault);
+            if u + eps + 2 * tau < l * period_ms {
+                return Err(fail(
+                    tr,
+                    &format!("fault-too-early:{}", case.family),
+                    format!("first {k:?} at {} ms, suspended {t_s}..{t_r} ms, fault at {t_fault} ms: only {u} ms of un-suspended time, limit {l} x {period_ms} ms", tx[0]),
+                ));
+            }
+            if (tx.len() as u64) < l {
+                return Err(fail(
+                    tr,
+                    &format!("retransmissions-before-fault:{}", case.family),
+                    format!("limit {l}: only {} transmission(s) of the {k:?} PDU at {tx:?} before the fault at {t_fault} ms (suspended {t_s}..{t_r})", tx.len()),
+                ));
+            }
+            let mut marks = tx.clone();
+            marks.push(t_fault);
+            for w in marks.windows(2) {
+                let g = unsusp(w[0], w[1]);
+                if g + eps < period_ms || g > 2 * period_ms + eps {
+                    return Err(fail(
+                        tr,
+                        &format!("retransmission-spacing:{}", case.family),
+                        format!("{k:?} transmissions at {tx:?}, fault at {t_fault}, suspended {t_s}..{t_r}: {g} ms of un-suspended time between {} and {} (timeout {period_ms} ms)", w[0], w[1]),
+                    ));
+                }
             }
         }
         "S-inact" | "R-inact" => {
@@ -266,6 +318,8 @@ impl Part for C17Part {
             "R-nak" => "R-nak",
             "R-inact" => "R-inact",
             "R-cksum" => "R-cksum",
+            "S-ack-susp" => "S-ack-susp",
+            "R-ack-susp" => "R-ack-susp",
             _ => "R-size",
         });
         out = out.class_if(case.answers > 0, "answers-before-expiry");
@@ -288,7 +342,7 @@ impl Part for C17Part {
 #[allow(clippy::too_many_arguments)]
 pub fn build(family: &str, ta: i64, tn: i64, ti: i64, l: u32, handler: i8, answers: u32, seed: u64, immediate: bool) -> C17Case {
     let cond = match family {
-        "S-ack" | "R-ack" => Condition::PositiveLimitReached,
+        "S-ack" | "R-ack" | "S-ack-susp" | "R-ack-susp" => Condition::PositiveLimitReached,
         "S-inact" | "R-inact" => Condition::InactivityDetected,
         "R-nak" => Condition::NakLimitReached,
         "R-cksum" => Condition::FileChecksumFailure,
@@ -326,6 +380,27 @@ pub fn build(family: &str, ta: i64, tn: i64, ti: i64, l: u32, handler: i8, answe
     match family {
         "S-ack" => {
             // the puppet never answers
+        }
+        "S-ack-susp" | "R-ack-susp" => {
+            // as S-ack / R-ack, and the user suspends after j whole periods + a fraction and resumes after a while
+            // (`answers` selects the variant)
+            let t_first = if real == 0 {
+                0u64
+            } else {
+                inject(&mut sc, Trigger::AtMs(10), pup.metadata(size as u64, "src.bin", "dst.bin", false, false, vec![]));
+                for i in 0..nseg {
+                    inject(&mut sc, Trigger::AtMs(20 + 10 * i as u64), data(i));
+                }
+                inject(&mut sc, Trigger::AtMs(100), pup.eof(Condition::NoError, modular(&content), size as u64));
+                100
+            };
+            let period = ta as u64 * 1000;
+            let j = (answers as u64) % (l as u64);
+            let frac = [300u64, 700, 950, 50][(answers as usize / 4) % 4];
+            let dur = [400u64, 2300, 1000, 5100][(answers as usize) % 4] * period / 1000;
+            let at = t_first + j * period + frac * period / 1000;
+            sc.actions.push(Action { trigger: Trigger::AtMs(at), entity: real, kind: ActionKind::Suspend { put: 0 } });
+            sc.actions.push(Action { trigger: Trigger::AtMs(at + dur), entity: real, kind: ActionKind::Resume { put: 0 } });
         }
         "S-inact" => {
             // acknowledge the EOF, then `answers` keep-alives, each 1 ms before 1.5 inactivity periods would have passed... i.e. after
@@ -379,7 +454,7 @@ pub fn build(family: &str, ta: i64, tn: i64, ti: i64, l: u32, handler: i8, answe
         }
     }
     let _ = FileStatusCode::Retained;
-    sc.horizon_ms = 2000 + (l as u64 + answers as u64 + 3) * worst * 2;
+    sc.horizon_ms = 2000 + (l as u64 + answers as u64 + 3) * worst * 2 + if family.ends_with("-susp") { 8 * worst } else { 0 };
     C17Case {
         sc,
         family: family.to_string(),
@@ -427,6 +502,18 @@ retransmission) x deferred/immediate NAK; exhaustive over this grid. Every case 
                             k += 1;
                             cases.push(build(family, ta, tn, ti, l, handler, answers, mix(ctx.seed, k), immediate));
                         }
+                    }
+                }
+            }
+        }
+    }
+    for family in ["S-ack-susp", "R-ack-susp"] {
+        for t in [1i64, 2, 3] {
+            for l in 1u32..=4 {
+                for handler in [-1i8, 0, 3] {
+                    for variant in 0u32..16 {
+                        k += 1;
+                        cases.push(build(family, t, t + 1, 40 * (t + 1) * 4, l, handler, variant, mix(ctx.seed, k), false));
                     }
                 }
             }
